@@ -18,13 +18,12 @@ Theorem C05_load_flush : forall S d n pk,
   forall a, a < n -> load S (flush S d n pk) a = d a.
 Proof. exact load_flush. Qed.
 
-(* to_dao, flush, load, from_dao -- for every round-tripping user code, every class model (alternatively mapped classes and
+(* to_dao, flush, load, from_dao -- for every user code whose column handling round-trips on the heap (codec_ok), every class model (alternatively mapped classes and
    DAOs below an alternatively mapped DAO included) that is coherent on the heap: if the persisted DAO graph fits the schema
    and lies in F05, the reload terminates, and unless from_dao handed out a mapping object in progress (C04-a: [bad]) the
    reloaded graph is isomorphic to the original; [bad] cannot happen when no DAO is a mapping-class DAO *)
-Theorem C05_reload : forall enc dec : Z -> list Z -> list Z, (forall c s, dec c (enc c s) = s) ->
-  forall S alts ab pk l r dr s1,
-  wf_heap l r = true -> alts_ok alts l = true -> to_dao enc alts l r = Some (dr, s1) ->
+Theorem C05_reload : forall (enc dec : Z -> list Z -> list Z) S alts ab pk l r dr s1,
+  wf_heap l r = true -> alts_ok alts l = true -> codec_ok enc dec l = true -> to_dao enc alts l r = Some (dr, s1) ->
   wf_dao S (dst s1) (nxt s1) = true -> F05 S (dst s1) (nxt s1) = true ->
   (forall a b, a < nxt s1 -> b < nxt s1 -> K S (dst s1) pk a = K S (dst s1) pk b -> a = b) ->
   exists r' s2, reload S enc dec alts ab pk l r = Some (r', s2) /\
@@ -66,7 +65,7 @@ Proof. exact refuted_selfref. Qed.
 (* the same graph on the schema the repaired generator produces (no ONETOMANY single reference) reloads correctly *)
 Example C05_selfref_now_inside :
   let S := mkSchema [] [] [(1%Z, [2%Z]); (5%Z, [7%Z])] [] in
-  frag_code S [] [] selfref_heap2 0 = 7%Z /\ model_reload S [] [] selfref_heap2 0 = spec_canon selfref_heap2 0.
+  frag_code S [] [] [] selfref_heap2 0 = 7%Z /\ model_reload S [] [] [] selfref_heap2 0 = spec_canon selfref_heap2 0.
 Proof. split; vm_compute; reflexivity. Qed.
 
 (* outside F05: a collection holding the same element twice (finding C05-b) *)
@@ -88,8 +87,8 @@ Definition c05_example : lheap :=
 Example C05_nonvacuous :
   wf_heap c05_example 0 = true /\ F04 [] c05_example = true /\
   wf_src c05_schema c05_example = true /\ F05_src c05_schema c05_example = true /\
-  frag_code c05_schema [] [] c05_example 0 = 7%Z /\
-  model_reload c05_schema [] [] c05_example 0 = spec_canon c05_example 0 /\
+  frag_code c05_schema [] [] [] c05_example 0 = 7%Z /\
+  model_reload c05_schema [] [] [] c05_example 0 = spec_canon c05_example 0 /\
   model_counts c05_schema [] c05_example 0 [1; 2; 3; 5]%Z [7%Z] = SL [SL [SZ 3; SZ 2; SZ 1; SZ 1]; SL [SZ 3]]%Z.
 Proof. vm_compute. repeat split. Qed.
 
